@@ -383,6 +383,8 @@ def custom_run(pid, tier, seed, replay=None):
     if not coq["ok"]:
         problems.append({"kind": "proof", "theorem": coq.get("failed_at"), "log": coq["log"][-1500:], "audit": coq["audit"]})
     zmodel, merr = core.model_build(pid, RUN_MODULE)
+    if zmodel is None and "TIMEOUT" in merr:      # an overloaded machine, not a broken model: try once more
+        zmodel, merr = core.model_build(pid, RUN_MODULE)
     if zmodel is None:
         problems.append({"kind": "proof", "theorem": "model does not build/extract", "log": merr[-1500:]})
     kf = core.known_findings(pid)
